@@ -114,7 +114,8 @@ fn main() {
                 if spec::trigger(prop, &out) {
                     trig += 1;
                 }
-                for v in out.violations.iter().take(1) {
+                let mut seen_rules = std::collections::BTreeSet::new();
+                for v in out.violations.iter().filter(|v| seen_rules.insert((v.property, v.rule))) {
                     let e = by_rule.entry(format!("{} {}", v.property, v.rule)).or_insert((0, seed));
                     e.0 += 1;
                     if e.0 == 1 {
